@@ -661,6 +661,15 @@ func RunJobScenario(sc *Scenario) (vd *Verdict) {
 			}
 			r.H = nh
 			r.Stats["restarts"]++
+			if op.N == 1 {
+				// what the application does when it starts: the scheduler loads the stored job definitions and hands
+				// them to the runner again
+				if err := r.H.Full.Sched.Start(context.Background()); err != nil {
+					fail(viol(sc.Property, "restart", "scheduler-start-failed", "%v", err), i)
+					return
+				}
+				r.Stats["restarts_with_scheduler_start"]++
+			}
 			r.ev("restart")
 		default:
 			fail(viol(sc.Property, "harness", "invalid", "unknown op %q", op.K), i)
